@@ -33,6 +33,11 @@ type Job struct {
 	WorkRoot string       `json:"work_root,omitempty"`
 	Deadline *DeadlineJob `json:"deadline,omitempty"`
 	Out      string       `json:"out"`
+	// Gated: the harness decides the interleaving.  Every script line is preceded by a `gate`
+	// command; a subtest runs only while it holds the turn, from one gate (or from Parallel) to the
+	// next gate or to its end.  Sched lists whose turn it is; it is completed round-robin.
+	Gated bool  `json:"gated,omitempty"`
+	Sched []int `json:"sched,omitempty"`
 }
 
 type ProbeObs struct {
@@ -82,6 +87,89 @@ type rootT struct {
 	sem     chan struct{} // at most cap(sem) parallel subtests run at a time
 	verbose bool
 	fatal   string
+	gs      *gateSched
+	index   map[string]int
+}
+
+type gateEv struct {
+	i    int
+	done bool
+}
+
+// gateSched hands the turn to one subtest at a time.
+type gateSched struct {
+	resume []chan struct{}
+	events chan gateEv
+}
+
+func newGateSched(n int) *gateSched {
+	g := &gateSched{events: make(chan gateEv, 4*n+4)}
+	for i := 0; i < n; i++ {
+		g.resume = append(g.resume, make(chan struct{}))
+	}
+	return g
+}
+
+// park is called by subtest i when it reaches a gate: it gives the turn back and waits for it.
+func (g *gateSched) park(i int) {
+	g.events <- gateEv{i, false}
+	<-g.resume[i]
+}
+
+// drive runs the schedule; it returns an error text when a subtest does not come back.
+func (g *gateSched) drive(n int, sched []int) string {
+	done := make([]bool, n)
+	parked := make([]bool, n)
+	left := n
+	wait := func(i int) string {
+		for {
+			select {
+			case ev := <-g.events:
+				if ev.done {
+					if !done[ev.i] {
+						done[ev.i] = true
+						left--
+					}
+				} else {
+					parked[ev.i] = true
+				}
+				if ev.i == i {
+					return ""
+				}
+			case <-time.After(40 * time.Second):
+				return fmt.Sprintf("subtest %d did not reach its next gate within 40 s", i)
+			}
+		}
+	}
+	// every subtest first parks in Parallel (or ends before it)
+	for i := 0; i < n; i++ {
+		if !parked[i] && !done[i] {
+			if e := wait(i); e != "" {
+				return e
+			}
+		}
+	}
+	step := func(i int) string {
+		if i < 0 || i >= n || done[i] {
+			return ""
+		}
+		parked[i] = false
+		g.resume[i] <- struct{}{}
+		return wait(i)
+	}
+	for _, i := range sched {
+		if e := step(i); e != "" {
+			return e
+		}
+	}
+	for left > 0 {
+		for i := 0; i < n; i++ {
+			if e := step(i); e != "" {
+				return e
+			}
+		}
+	}
+	return ""
 }
 
 type subT struct {
@@ -125,6 +213,9 @@ func (r *rootT) Run(name string, f func(testscript.T)) {
 			if held {
 				<-r.sem
 			}
+			if r.gs != nil {
+				r.gs.events <- gateEv{r.index[name], true}
+			}
 			close(s.done)
 		}()
 		s.start = time.Now()
@@ -139,6 +230,10 @@ func (r *rootT) Run(name string, f func(testscript.T)) {
 
 func (s *subT) Parallel() {
 	close(s.paused)
+	if s.root.gs != nil {
+		s.root.gs.park(s.root.index[s.name])
+		return
+	}
 	<-s.root.release
 	s.root.sem <- struct{}{}
 	s.mu.Lock()
@@ -278,7 +373,7 @@ func runBatchChild(job *Job, deadline time.Time) *ChildResult {
 		dir := filepath.Join(job.Dir, "scripts", strconv.Itoa(i))
 		os.MkdirAll(dir, 0o777)
 		f := filepath.Join(dir, s.Name+".txt")
-		if err := os.WriteFile(f, s.archive(), 0o666); err != nil {
+		if err := os.WriteFile(f, s.archiveIn(job.Dir, job.Gated), 0o666); err != nil {
 			res.Error = err.Error()
 			return res
 		}
@@ -288,7 +383,10 @@ func runBatchChild(job *Job, deadline time.Time) *ChildResult {
 	obsDir := filepath.Join(job.Dir, "obs")
 	os.MkdirAll(obsDir, 0o777)
 
-	p := testscript.Params{Files: files}
+	p := testscript.Params{Files: files, ContinueOnError: bt.ContinueOnError}
+	if files == nil {
+		p.Files = []string{} // a batch without scripts: Files non-nil and empty
+	}
 	switch bt.Retain {
 	case "testwork":
 		p.TestWork = true
@@ -302,6 +400,14 @@ func runBatchChild(job *Job, deadline time.Time) *ChildResult {
 	}
 	if !deadline.IsZero() {
 		p.Deadline = deadline
+	}
+	var gs *gateSched
+	index := map[string]int{}
+	for i := range bt.Scripts {
+		index[bt.Scripts[i].Name] = i
+	}
+	if job.Gated {
+		gs = newGateSched(len(bt.Scripts))
 	}
 	p.Setup = func(env *testscript.Env) error {
 		name := strings.TrimPrefix(filepath.Base(env.WorkDir), "script-")
@@ -385,6 +491,11 @@ func runBatchChild(job *Job, deadline time.Time) *ChildResult {
 				}
 			}
 		},
+		"gate": func(ts *testscript.TestScript, neg bool, args []string) {
+			if gs != nil {
+				gs.park(index[ts.Name()])
+			}
+		},
 		"boom": func(ts *testscript.TestScript, neg bool, args []string) {
 			panic("custom command panics on request")
 		},
@@ -417,7 +528,7 @@ func runBatchChild(job *Job, deadline time.Time) *ChildResult {
 	if par <= 0 {
 		par = 8
 	}
-	root := &rootT{release: make(chan struct{}), sem: make(chan struct{}, par), verbose: bt.Verbose}
+	root := &rootT{release: make(chan struct{}), sem: make(chan struct{}, par), verbose: bt.Verbose, gs: gs, index: index}
 	t0 := time.Now()
 	res.T0 = t0.UnixNano()
 	ran := make(chan struct{})
@@ -426,6 +537,12 @@ func runBatchChild(job *Job, deadline time.Time) *ChildResult {
 		testscript.RunT(root, p)
 	}()
 	<-ran
+	if gs != nil {
+		if e := gs.drive(len(root.subs), job.Sched); e != "" {
+			res.Error = "gated run: " + e
+			return res
+		}
+	}
 	close(root.release)
 	for _, s := range root.subs {
 		<-s.done
